@@ -31,6 +31,21 @@
    against these specifications by the lock-step check only). *)
 From Ekit Require Import Common Conc LockedModel CowModel SyncMapModel LockedProof CowProof SyncMapProof.
 
+(* ===================== 0. reading the history predicate ===================== *)
+
+(* [thread_hist] spelled out on the list: in a well-formed history every response of thread t is
+   preceded by its invocation and by exactly ONE linearisation event of t in between, with the
+   same operation and the same result, and t has no other event in between.  (Every prefix of a
+   reachable history is itself a reachable history, so this holds at the moment of every return.) *)
+Theorem completed_call_has_one_linearisation_point :
+  forall (op ret : Type) (t : tid) (h : list (hev op ret)) (ph : phase op ret),
+    thread_hist t h ph ->
+    forall h1 o r h2, h = h1 ++ HRet t o r :: h2 ->
+      exists ha hb hc, h1 = ha ++ HCall t o :: hb ++ HLin t o r :: hc /\
+                       Forall (fun e => hev_tid e <> t) hb /\ Forall (fun e => hev_tid e <> t) hc.
+Proof. exact completed_call_shape_lemma. Qed.
+Print Assumptions completed_call_has_one_linearisation_point.
+
 (* ===================== 1. lock-bracketed objects, generically ===================== *)
 
 (* For an arbitrary sequential object (state, op, ret, seq_step) whose methods have the shape
